@@ -187,6 +187,7 @@ class MultiHarness:
     def __init__(self, trainer, dt=1.0, B=1, delay_steps=None, seed=0, batch_reduction=torch.sum, hypers=None, dtype=None,
                  topology="fan_in"):
         self.name, self.dt, self.B, self.topology = trainer, dt, B, topology
+        self.apply_via = "connection"
         self.hypers = [{**DEFAULT_HYPER, **h} for h in hypers]
         if trainer in NEEDS_DELAY and delay_steps is None:
             delay_steps = 2
@@ -239,17 +240,26 @@ class MultiHarness:
                 self.trainer(reward, scale, cells=cells)
         else:
             self.trainer()
-        out = []
+        out, befores = [], []
         for c in self.conns:
             acc = getattr(c.updater, self.param)
             ref = getattr(c, self.param)
             z = torch.zeros_like(ref)
             p, n = acc.pos, acc.neg
             p, n = (z if p is None else p.detach().clone()), (z if n is None else n.detach().clone())
-            before = ref.detach().clone()
-            c.update()
-            out.append((p, n, getattr(c, self.param).detach().clone() - before))
-        return out
+            befores.append(ref.detach().clone())
+            if self.apply_via != "trainer":
+                c.update()
+            out.append([p, n, None])
+        if self.apply_via == "trainer":
+            # documented: applies every cell's updater, each once, even if it serves several cells; it does not discard the
+            # applied parts (Connection.update does that): cleared by hand, as a training loop using this form has to
+            self.trainer.update()
+            for c in self.conns:
+                c.updater.clear()
+        for c, o, b in zip(self.conns, out, befores):
+            o[2] = getattr(c, self.param).detach().clone() - b
+        return [tuple(o) for o in out]
 
 
 # ------------------------------------------------------------------------------------------
